@@ -25,8 +25,9 @@ type Probes struct {
 
 // MonFetcher interposes on a fetcher.Service and wraps every account it hands out.
 type MonFetcher struct {
-	Inner  fetcher.Service
-	Probes *Probes
+	fetcher.Service // embedded (nil is fine) so that methods added to the interface later do not break the build
+	Inner           fetcher.Service
+	Probes          *Probes
 }
 
 var _ fetcher.Service = (*MonFetcher)(nil)
